@@ -474,8 +474,16 @@ pub fn check_graph_info(spec: &Spec, yaml: bool, st: &mut Stats) {
     if nodes != want_nodes || idx != (0..n).collect::<Vec<_>>() {
         bviol(st, 17, spec, what, format!("from_graph nodes {nodes:?} (indices {idx:?}), expected {want_nodes:?}"));
     }
-    if edges != raw {
-        bviol(st, 17, spec, what, format!("from_graph edges {edges:?}, graph edges {raw:?}"));
+    {
+        // "exactly its edges with kinds": compared as multisets (the order is not part of the
+        // statement; equality after the round trip is checked separately)
+        let mut a = eh(&edges);
+        let mut b = eh(&raw);
+        a.sort_unstable();
+        b.sort_unstable();
+        if a != b {
+            bviol(st, 17, spec, what, format!("from_graph edges {edges:?}, graph edges {raw:?}"));
+        }
     }
     for (name, order, fwd) in [("iter", &it, true), ("iter_rev", &itr, false)] {
         let mut pos = vec![usize::MAX; n];
@@ -515,13 +523,35 @@ pub fn check_graph_info(spec: &Spec, yaml: bool, st: &mut Stats) {
     }
 }
 
+/// Builds in progress, for the "builds promptly" watchdog of C18: (started, input).
+pub static IN_PROGRESS: std::sync::Mutex<Vec<(std::thread::ThreadId, Instant, String)>> = std::sync::Mutex::new(Vec::new());
+
+fn watch_begin(spec: &Spec) {
+    let mut w = IN_PROGRESS.lock().unwrap();
+    w.push((std::thread::current().id(), Instant::now(), serde_json::to_string(spec).unwrap_or_default()));
+}
+
+fn watch_end() {
+    let id = std::thread::current().id();
+    let mut w = IN_PROGRESS.lock().unwrap();
+    w.retain(|e| e.0 != id);
+}
+
+/// Returns the input of a build that has been running for longer than `limit`.
+pub fn watch_overdue(limit: std::time::Duration) -> Option<(String, f64)> {
+    let w = IN_PROGRESS.lock().unwrap();
+    w.iter().find(|e| e.1.elapsed() > limit).map(|e| (e.2.clone(), e.1.elapsed().as_secs_f64()))
+}
+
 /// C18 on one input: rank computation pops each function at most n times.
 pub fn check_pops(spec: &Spec, st: &mut Stats) {
     let n = spec.n as u64;
     let bound_total = n * n + n;
     fn_graph::verif_hooks::rank_pops_reset(4 * bound_total + 16);
     let t0 = Instant::now();
+    watch_begin(spec);
     let r = catch_quiet(|| crate::graphs::build(spec));
+    watch_end();
     let pops = fn_graph::verif_hooks::rank_pops();
     fn_graph::verif_hooks::rank_pops_reset(0);
     st.execs += 1;
@@ -640,6 +670,115 @@ pub fn run_family_space(label: &str, members: Vec<(Family, usize)>, deadline: In
     st.capped |= capped;
     log.push(json!({"space": label, "members": members.len(), "inputs": st.execs, "completed": !st.capped, "wall_s": t0.elapsed().as_secs_f64()}));
     eprintln!("  [{label}] members={} inputs={} viol={} {}{:.1}s", members.len(), st.execs, st.viol_total, if st.capped { "CAPPED " } else { "" }, t0.elapsed().as_secs_f64());
+    total.merge(st);
+}
+
+
+// ---------------------------------------------------------------------------
+// larger graphs with declarations: enumerated parameter families (sizes beyond the exhaustive
+// range matter, e.g. std's sort is stable by construction only up to 20 elements)
+
+fn decl_pattern(p: usize, i: usize) -> Vec<u8> {
+    match p {
+        0 => vec![2, 0],
+        1 => {
+            if i % 2 == 0 {
+                vec![2, 0]
+            } else {
+                vec![1, 0]
+            }
+        }
+        2 => match i % 3 {
+            0 => vec![2, 0],
+            1 => vec![1, 2],
+            _ => vec![0, 1],
+        },
+        3 => {
+            if i % 4 < 2 {
+                vec![1, 1]
+            } else {
+                vec![0, 2]
+            }
+        }
+        4 => vec![1, 1],
+        _ => match (i * 7 + 3) % 5 {
+            0 => vec![2, 1],
+            1 => vec![1, 0],
+            2 => vec![0, 0],
+            3 => vec![0, 2],
+            _ => vec![1, 1],
+        },
+    }
+}
+
+/// (name, n, edges) of the shapes used with declarations.
+fn declared_shapes(k: usize) -> Vec<(String, usize, Vec<(usize, usize)>)> {
+    let mut v = vec![];
+    v.push((format!("antichain({k})"), k, vec![]));
+    // zigzag: odd nodes are roots, even nodes depend on their odd neighbour: ranks 1,0,1,0,...
+    if 2 * k <= 64 {
+        v.push((format!("zigzag({k})"), 2 * k, (0..k).map(|j| (2 * j + 1, 2 * j)).collect()));
+    }
+    // descending chain over the first half (i+1 -> i), second half isolated
+    let h = k / 2;
+    v.push((format!("descending_chain_plus_isolated({k})"), k, (0..h.saturating_sub(1)).map(|i| (i + 1, i)).collect()));
+    for (fam, name) in [(Family::StarRev, "star_centre_last"), (Family::FanOut, "fan_out"), (Family::FanIn, "fan_in"), (Family::BinTree, "bin_tree")] {
+        let (n, e) = family(fam, k);
+        if n <= 64 {
+            v.push((format!("{name}({k})"), n, e));
+        }
+    }
+    for w in [2usize, 3] {
+        let (n, e) = family(Family::Layered(w), k / w + 1);
+        if n <= 64 {
+            // insert the layers' nodes interleaved so that insertion order differs from rank order
+            v.push((format!("layered{w}({})", k / w + 1), n, e.clone()));
+            let perm: Vec<usize> = (0..n).map(|i| (i * 5 + 2) % n).collect();
+            let mut seen = vec![false; n];
+            if perm.iter().all(|&x| !std::mem::replace(&mut seen[x], true)) {
+                v.push((format!("layered{w}({}) relabelled", k / w + 1), n, e.iter().map(|&(a, b)| (perm[a], perm[b])).collect()));
+            }
+        }
+    }
+    v
+}
+
+pub fn run_declared_families(tier: &str, deadline: Instant, f: &(dyn Fn(&Spec, &mut Stats) + Sync), total: &mut Stats, log: &mut Vec<Value>) {
+    let ks: Vec<usize> = if tier == "thorough" { (2..=60).collect() } else { vec![4, 7, 12, 19, 20, 21, 22, 24, 29, 32, 40, 48] };
+    let mut specs = vec![];
+    for &k in &ks {
+        for (name, n, e) in declared_shapes(k) {
+            for p in 0..6 {
+                let mut s = Spec::plain(n, &e);
+                s.decl = (0..n).map(|i| decl_pattern(p, i)).collect();
+                specs.push((format!("{name} pattern {p}"), s));
+            }
+        }
+    }
+    let t0 = Instant::now();
+    let mut st = Stats::default();
+    let specs_ref = &specs;
+    let capped = par_for(
+        specs.len(),
+        deadline,
+        Stats::default,
+        |i, local: &mut Stats| {
+            let (name, s) = &specs_ref[i];
+            let n = s.n as u64;
+            fn_graph::verif_hooks::rank_pops_reset(16 * (n * n + n) + 64);
+            f(s, local);
+            fn_graph::verif_hooks::rank_pops_reset(0);
+            if local.samples.len() < 1 && i % 37 == 5 {
+                local.samples.push(json!({"family": name, "n": s.n, "user_edges": s.edges.len()}));
+            }
+            local.fold_hashes();
+        },
+        |l| st.merge(l),
+    );
+    st.capped |= capped;
+    let label = format!("declared families (antichain, zigzag, descending chain, stars, fans, trees, layered; 6 access patterns over 2 types) for k in {ks:?}, n <= 64");
+    log.push(json!({"space": label, "inputs": st.execs, "completed": !st.capped, "wall_s": t0.elapsed().as_secs_f64()}));
+    eprintln!("  [declared families, {} inputs] viol={} {}{:.1}s", specs.len(), st.viol_total, if st.capped { "CAPPED " } else { "" }, t0.elapsed().as_secs_f64());
     total.merge(st);
 }
 
@@ -876,6 +1015,7 @@ pub fn run_build_props(prop: u8, tier: &str, deadline: Instant, total: &mut Stat
             for sp in &spaces {
                 run_build_space(sp, deadline, &f, total, log);
             }
+            run_declared_families(tier, deadline, &f, total, log);
         }
         13 => {
             let f = |s: &Spec, st: &mut Stats| check_built(s, &[13], st);
@@ -922,6 +1062,7 @@ pub fn run_build_props(prop: u8, tier: &str, deadline: Instant, total: &mut Stat
                 fn_graph::verif_hooks::rank_pops_reset(0);
             };
             run_family_space("sparse / dense families up to n=40 (chains, stars, trees, bipartite, complete, layered, diamonds), both insertion orders", members, deadline, &g, total, log);
+            run_declared_families(tier, deadline, &f, total, log);
         }
         14 => {
             let f = |s: &Spec, st: &mut Stats| check_iteration(s, st);
@@ -933,6 +1074,7 @@ pub fn run_build_props(prop: u8, tier: &str, deadline: Instant, total: &mut Stat
             for sp in &spaces {
                 run_build_space(sp, deadline, &f, total, log);
             }
+            run_declared_families(tier, deadline, &f, total, log);
         }
         17 => {
             let f = |s: &Spec, st: &mut Stats| check_graph_info(s, true, st);
@@ -943,6 +1085,7 @@ pub fn run_build_props(prop: u8, tier: &str, deadline: Instant, total: &mut Stat
             for sp in &spaces {
                 run_build_space(sp, deadline, &f, total, log);
             }
+            run_declared_families(tier, deadline, &f, total, log);
             if thorough {
                 let f2 = |s: &Spec, st: &mut Stats| check_graph_info(s, false, st);
                 run_build_space(&bs("n=5, T=1, structural comparison", 5, 1, 0, 0), deadline, &f2, total, log);
